@@ -240,4 +240,7 @@ class BaseNode(Node):
                 node.value_slice = None
             if not node.units_raw:
                 node.units_raw = nodes[0].units_raw
+            if node.value_raw=='' and env.envtype!=EnvType.DOCS:
+                # the referenced node holds the empty string: that is the value ('' with a reference means "not injected")
+                node.value_ref = None
         
